@@ -882,8 +882,41 @@ help: Show this message."#,
   }
 }
 
-#[tokio::main]
-async fn main() {
+/// The parser, the type checker and the lowering passes recurse over the syntax tree, one or more
+/// frames per nesting level (and per operand of a left-nested chain such as `a + b + c + ...` or
+/// `a.b.c...`). On the default stacks (8 MiB main thread, 2 MiB worker threads) a small file with
+/// about a thousand nested parentheses or a few hundred chained member accesses aborted the
+/// process with a stack overflow instead of producing a result. All work therefore runs on threads
+/// with generous stacks. Stack memory is reserved address space that is only committed when
+/// touched, so this costs nothing for ordinary programs.
+const MAIN_THREAD_STACK_SIZE: usize = 256 * 1024 * 1024;
+/// rayon workers run the per-module type checking; tokio workers run the LSP request handlers.
+const WORKER_THREAD_STACK_SIZE: usize = 64 * 1024 * 1024;
+
+fn main() {
+  rayon::ThreadPoolBuilder::new()
+    .stack_size(WORKER_THREAD_STACK_SIZE)
+    .build_global()
+    .expect("The global thread pool is configured exactly once.");
+  let main_thread = std::thread::Builder::new()
+    .name("samlang-main".to_string())
+    .stack_size(MAIN_THREAD_STACK_SIZE)
+    .spawn(|| {
+      tokio::runtime::Builder::new_multi_thread()
+        .enable_all()
+        .thread_stack_size(WORKER_THREAD_STACK_SIZE)
+        .build()
+        .expect("Failed to start the async runtime.")
+        .block_on(async_main())
+    })
+    .expect("Failed to start the main thread.");
+  if main_thread.join().is_err() {
+    // The panic message has already been printed by the panic hook.
+    std::process::exit(101);
+  }
+}
+
+async fn async_main() {
   let arguments = std::env::args().skip(1).collect::<Vec<_>>();
   let does_need_help =
     arguments.contains(&"--help".to_string()) || arguments.contains(&"-h".to_string());
